@@ -27,7 +27,7 @@ QUICK_WORKERS = 4
 WORKERS = 14
 
 KNOWN_SLUGS = ('double-completion-after-speculative-executions', 'completion-after-timeout-by-late-response', 'double-timeout-error',
-               'earlier-page-execution-completes-later-page-fetch')
+               'earlier-page-execution-completes-later-page-fetch', 'timeout-error-after-completion')
 
 
 def _is_oto(ev):
@@ -35,13 +35,16 @@ def _is_oto(ev):
     return ev[0] == 'eb' and isinstance(ev[3], OperationTimedOut)
 
 
-def classify_multi(outs, sent, answered, stale, failed, spec_on):
-    """Slugs for an epoch whose first registration saw more than one outcome (outs in delivery order).
-    sent / answered: messages of this epoch the nodes received / answered-or-failed; stale: messages of *earlier* page
-    epochs answered or failed during this epoch; failed: messages (own + stale) that failed with their connection."""
+def classify_multi(outs, own, stale_l, spec_on):
+    """Slugs for a page epoch whose first registration saw more than one outcome (outs in delivery order).
+    own: the messages of this epoch the nodes received (arrival records); stale_l: messages of *earlier* page epochs
+    answered or failed during this epoch."""
     import collections
     from cassandra.connection import ConnectionException
-    slugs = []
+    sent = len([a for a in own if a['op'] != 'PREPARE'])
+    answered = len([a for a in own if a['answered'] is not None])
+    stale = len(stale_l)
+    failed = len([a for a in own + stale_l if a['answered'] == ('failed',)])
     ids = collections.Counter(id(o[3]) for o in outs if o[3] is not None)
     for o in outs:
         c = ids.get(id(o[3]), 0)
@@ -49,25 +52,38 @@ def classify_multi(outs, sent, answered, stale, failed, spec_on):
             # the very same result / exception object handed over again: a repeated delivery, not a second completion
             # (a failing connection hands one ConnectionShutdown object to every pending handler: that is not a repeat)
             return ['same-outcome-object-delivered-more-than-once']
-    otos = [i for i, o in enumerate(outs) if _is_oto(o)]
-    others = [i for i, o in enumerate(outs) if not _is_oto(o)]
-    if len(others) > max(answered + stale, 1):
+    if len([o for o in outs if not _is_oto(o)]) > max(answered + stale, 1):
         return ['more-completions-than-answered-messages']
-    if len(otos) >= 2:
-        slugs.append('double-timeout-error')
-    if otos and any(i > otos[0] for i in others):
-        slugs.append('completion-after-timeout-by-late-response')
-    elif otos and others and len(otos) < 2:
-        slugs.append('timeout-error-after-completion')
-    if stale:
-        slugs.append('earlier-page-execution-completes-later-page-fetch')
-    elif len(others) >= 2:
-        if spec_on and sent >= 2 and answered >= len(others):
-            slugs.append('double-completion-after-speculative-executions')
+    slugs = []
+    first = outs[0]
+    for i in range(1, len(outs)):
+        o = outs[i]
+        before = outs[:i]
+        if _is_oto(o):
+            if any(_is_oto(b) for b in before):
+                slug = 'double-timeout-error'
+            else:
+                # a timeout error after the request was completed: known only as the consequence of a message that was answered or
+                # failed after the completion (the retry it triggers notices the elapsed timeout), or of an execution sent in the very
+                # instant of the completion (the speculative-execution timer re-arms the timeout after the completion cancelled it)
+                later = [a for a in own + stale_l if a['answered'] is not None and a['answered_ev'] >= first[4]]
+                same_instant = [a for a in own if a['op'] != 'PREPARE' and a['t'] >= first[2] - 1e-3]
+                slug = 'timeout-error-after-completion' if (later or same_instant) else 'timeout-error-after-completion-unexplained'
         else:
-            slugs.append('multiple-completions-without-speculative-executions')
-    if not slugs:
-        slugs.append('multiple-outcomes-unclassified')
+            slug = None
+            if any(_is_oto(b) for b in before):
+                slug = 'completion-after-timeout-by-late-response'
+            if any(not _is_oto(b) for b in before):
+                if slug:
+                    slugs.append(slug)
+                if stale:
+                    slug = 'earlier-page-execution-completes-later-page-fetch'
+                elif spec_on and sent >= 2 and answered >= 2:
+                    slug = 'double-completion-after-speculative-executions'
+                else:
+                    slug = 'multiple-completions-without-speculative-executions'
+        if slug not in slugs:
+            slugs.append(slug)
     return slugs
 
 
@@ -157,6 +173,10 @@ def run_history(seed, knobs=None):
                 ps.is_idempotent = s['idem']
                 prepared[s['uid']] = ps
         world.settle(advance=False)
+        # Session.__init__ walks a *set* of Future objects (identity hash): the schedule of the connect phase depends on heap addresses.
+        # Pin the generators again at this quiescent point so that the phase under test is a function of the seed.
+        ch.rng = random.Random(seed * 7 + 2)
+        random.seed(seed + 1)
         ch.p_time = p_time
 
         mons = {}
@@ -176,7 +196,7 @@ def run_history(seed, knobs=None):
 
         def start(s):
             uid = s['uid']
-            mon = R.Mon(world, uid, T)
+            mon = R.Mon(world, uid, T, env.net)
             mon.info = s
             mons[uid] = mon
             plan.started.add(uid)
@@ -333,7 +353,6 @@ def run_history(seed, knobs=None):
                 hi = mon.epoch_start_ev[e + 1] if e + 1 < len(mon.epoch_start_ev) else len(env.net.events) + 1
                 stale_l = [a for a in plan.arrivals if a['uid'] == mon.uid and a['epoch'] < e and a['answered'] is not None and lo <= a['answered_ev'] < hi]
                 stale = len(stale_l)
-                failed = len([a for a in arr + stale_l if a['answered'] == ('failed',)])
                 if e == 0:
                     count('timeout_elapsed_checks')
                 if len(outs) == 0:
@@ -348,7 +367,7 @@ def run_history(seed, knobs=None):
                     continue
                 if len(outs) > 1:
                     count('epochs_with_multiple_completions')
-                    for slug in classify_multi(outs, sent, answered, stale, failed, spec_on):
+                    for slug in classify_multi(outs, arr, stale_l, spec_on):
                         count('seen:' + slug)
                         viol.append((slug, 'uid %d epoch %d: %d outcomes for one registration: %s (messages sent %d, answered/failed %d, answers to messages of earlier epochs %d, speculative executions %s)' % (
                             mon.uid, e, len(outs), [_short(x) for x in outs], sent, answered, stale, 'on' if spec_on else 'off'), mon))
@@ -422,10 +441,12 @@ def run(ctx):
     ctx.assume("answers of one page epoch are delivered before the next page fetch is started (no stale answer crosses into a later epoch)")
     ctx.assume("void results are not served for paged statements; UNPREPARED is served to EXECUTE only")
     n = ctx.scale(4000, 200000)
-    budget = 40 if ctx.quick else 420
+    budget = 36 if ctx.quick else 400
     base = ctx.seed * 1000003 + (ctx.worker or 0) * 100003
+    # budget by time, but never fewer histories than the floors need (a loaded machine must not turn the verdict inconclusive)
+    at_least = 70 if ctx.quick else 300
     for i in range(n):
-        if ctx.time_left(budget) < 0:
+        if ctx.time_left(budget) < 0 and i >= at_least:
             ctx.note("stopped by time budget after %d histories" % i)
             break
         seed = base + i
@@ -454,7 +475,7 @@ def run(ctx):
             ctx.violation(mech, "%s [seed %d]" % (what, seed), {"seed": seed, "info": info, "future": hist.get(mon.uid)})
         if not viol and len(ctx.samples) < 4 and info['retry_decisions'] and info['messages'] >= 3:
             ctx.sample({"info": info, "futures": hist})
-    ctx.floor_distinct = 150 if ctx.quick else 5000
+    ctx.floor_distinct = 120 if ctx.quick else 3000
     ctx.floor_counters = {"histories": 150, "epochs_with_single_completion": 150, "registrations_compared": 300, "late_registrations_checked": 80,
                           "result_calls_compared": 100, "quiescence_checks_all_messages_answered": 150, "retry_decisions": 50,
                           "later_page_fetches": 20, "timeout_elapsed_checks": 150}
